@@ -246,7 +246,7 @@ VERIF_TARGET(c51_gcs, init_c51, 24, 400,
         if (pm <= 1) { P = 19; M = 784931; }
         else if (pm == 2) { P = 10; M = 1 << 10; }
         else { P = uint8_t(s.range<unsigned>(0, 32)); uint64_t maxm = std::min<uint64_t>(0xffffffffULL, uint64_t{1} << std::min<unsigned>(P + 3, 32)); M = uint32_t(s.chance(128) ? maxm : s.range<uint64_t>(1, maxm)); if (s.chance(64)) M = uint32_t(std::min<uint64_t>(uint64_t{1} << std::min<unsigned>(P, 31), 0xffffffffULL)); }
-        size_t n = s.chance(2) ? s.range<size_t>(2000, 20000) : s.chance(40) ? s.range<size_t>(250, 260) : s.range<size_t>(0, 60);
+        size_t n = s.chance(2) ? (s.chance(24) ? s.range<size_t>(10000, 20000) : s.range<size_t>(2000, 4000)) : s.chance(40) ? s.range<size_t>(250, 260) : s.range<size_t>(0, 60);
         std::set<Bytes> model;
         GCSFilter::ElementSet elements;
         bool cheap = n > 300;
